@@ -493,3 +493,53 @@ def bool_sim(body, atom_value, max_states=20000):
         for x in nxt:
             work.append((x, frozen))
     return reached
+
+
+def rv_locals(rv):
+    """Locals mentioned by an rvalue (operands, aggregate fields, the place of a ref / discriminant read)."""
+    out = []
+    for k in ("o", "a", "b"):
+        if k in rv and is_place_op(rv[k]):
+            out.append(rv[k][1][0])
+    for o in rv.get("ops", []) or []:
+        if is_place_op(o):
+            out.append(o[1][0])
+    if "p" in rv and isinstance(rv["p"], list) and rv["p"]:
+        out.append(rv["p"][0])
+    return out
+
+
+def back_calls(b, defs, local, depth=0, seen=None):
+    """Blocks of the calls whose results a local (transitively) derives from."""
+    if seen is None:
+        seen = set()
+    out = set()
+    if local in seen or depth > 30:
+        return out
+    seen.add(local)
+    for d in defs.defs.get(local, []):
+        if d[2] == "call":
+            out.add(d[0])
+            for a in d[3]["args"]:
+                if is_place_op(a):
+                    out |= back_calls(b, defs, a[1][0], depth + 1, seen)
+        elif d[2] == "assign":
+            for x in rv_locals(d[3]["rv"]):
+                out |= back_calls(b, defs, x, depth + 1, seen)
+    return out
+
+
+def decided_by(b, defs, dom, lookup_bb, target_bb):
+    """Is there a branch, dominated by the call in lookup_bb and dominating target_bb, whose condition derives from that call's
+    result and one of whose successors cannot reach target_bb?  (`if x.is_none() { return Err }`, `let Some(..) = .. else`,
+    `match`, `?` - whatever the spelling, the lookup decides whether the target runs.)"""
+    for si, blk in enumerate(b.blocks):
+        t = blk["term"]
+        if t["k"] != "switch" or si not in dom[target_bb] or lookup_bb not in dom[si]:
+            continue
+        l = op_local(t["o"])
+        if l is None or lookup_bb not in back_calls(b, defs, l):
+            continue
+        if any(target_bb not in (reachable_from(b, s) | {s}) for s in succs(blk)):
+            return True
+    return False
